@@ -1,4 +1,5 @@
 import PynetVerif.Model.Conform
+import PynetVerif.Gen.Glue
 import PynetVerif.Lemmas.Strip
 /-!
 C12 — association requests and responses pynetdicom sends are structurally conformant.
@@ -350,5 +351,11 @@ example : conformantAC (buildRQ demo)
 example : (buildAC [0x41] [0x42] [⟨1, 3, [], [ct]⟩, ⟨3, 0, [], [ct]⟩] []).pcs.map (·.id) = [3, 1] := by decide
 -- the called title " A " of `demo` comes back as "A" + 15 spaces: not the bytes of the request's field
 example : (buildAC [0x41] [0x42] [] []).called ≠ (buildRQ demo).called := by decide
+
+/-- the hypotheses under which `C12_ids` describes `AE.associate`: every requested context is copied on its own,
+the list that will be used (keyword or the AE's own) is validated unconditionally, and every copy is numbered
+`2 * ii + 1` whatever id it arrived with (syntax facts regenerated from ae.py on every run) -/
+theorem C12_associate_glue_is_code :
+    Gen.Glue.copiedPerItem = true ∧ Gen.Glue.allValidated = true ∧ Gen.Glue.idsRenumbered = true := by decide
 
 end PynetVerif
